@@ -1423,13 +1423,23 @@ func ruleChainOrder(c *Ctx, a *serverAnchors) {
 							}
 						}
 						if x.Op == "slice" && x.Args[0].Op == "alloc" {
+							// the elements of the argument list, in index order
+							cells := map[int64]*Term{}
+							maxI := int64(-1)
 							for k2, loc := range pr.State.heapLoc {
 								if loc.Op == "ia" && loc.Args[0].Key() == x.Args[0].Key() {
-									v := pr.State.heap[k2]
-									if v.Op == "call" && v.Fn != nil {
-										if k, ok := ctor[v.Fn.String()]; ok {
-											order = append(order, k)
+									if i, ok := loc.Args[1].IntVal(); ok {
+										cells[i] = pr.State.heap[k2]
+										if i > maxI {
+											maxI = i
 										}
+									}
+								}
+							}
+							for i := int64(0); i <= maxI; i++ {
+								if v := cells[i]; v != nil && v.Op == "call" && v.Fn != nil {
+									if k, ok := ctor[v.Fn.String()]; ok {
+										order = append(order, k)
 									}
 								}
 							}
